@@ -11,6 +11,8 @@ def prop_of(e):
     seq = e.get("fmt") in ("fasta", "fastq")
     if e["op"] == "write":
         return "C01" if seq else "C02"
+    if e["op"] == "bigmut":
+        return "C03"
     if e["op"] == "big":
         return "C04" if e.get("layout") else "C01"
     if not e.get("valid"):
